@@ -582,6 +582,19 @@ def build_unit(ctx, tag, src, streams, want_asm=True, with_clang=False):
                 pass
     return b
 
+def cc_accepts(ctx, src):
+    """does the snapshot's chibicc compile and assemble this translation unit?"""
+    d = os.path.join(ctx.scratch, 'c03')
+    os.makedirs(d, exist_ok=True)
+    path = os.path.join(d, 'accept.c')
+    open(path, 'w').write(src)
+    rc, o, e = sh([ctx.cc, '-c', '-o', path + '.o', path], timeout=60)
+    try:
+        os.remove(path + '.o')
+    except OSError:
+        pass
+    return rc == 0
+
 def arbitrate(ctx, fn_text, stream):
     """one function, three compilers.  'violation' when the chibicc build differs from every reference build that ran and
     the references do not contradict each other in chibicc's favour; 'oracle' when chibicc agrees with at least one
@@ -635,8 +648,9 @@ def model_exec(ctx, trees, streams, fuel=6000):
 def model_execg(ctx, trees, streams, fuel=60000):
     """Spec.Ctl.execG (small-step abstract machine for ALL statements: goto, goto *&&L, case labels nested anywhere) through
     drv_c03 execg.  One dict per function: valid (the constraints validG hold), gotoval, how (normal|return|break|continue|
-    timeout|unsupported), events."""
-    text = ''.join(f"{fuel} {','.join(str(v) for v in vs) or '-'} {sx(t)}\n" for t, vs in zip(trees, streams))
+    timeout|unsupported), events.  The driver stops (timeout) once the trace has LIMIT+64 events: the C harness stops at
+    LIMIT events, only that prefix is compared."""
+    text = ''.join(f"{fuel} {LIMIT + 64} {','.join(str(v) for v in vs) or '-'} {sx(t)}\n" for t, vs in zip(trees, streams))
     res = []
     for l in ctx.driver('execg', text).splitlines():
         m = re.match(r'valid=(\w+) gotoval=(\w+) jumps=(\d+) (done (\w+)|timeout) oi=(\d+) : (.*)$', l)
@@ -714,19 +728,30 @@ def shrink(ctx, tree, stream, budget=32):
                 cur = cand
                 progress = True
                 break
-    while len(stream) > 0 and budget > 0:
-        budget -= 1
-        if single_differs(ctx, cur, stream[:-1]):
-            stream = stream[:-1]
-        else:
+    # the oracle stream: drop chunks (halving, down to single values) while the difference persists
+    budget = max(budget, 0) + 40
+    chunk = max(1, len(stream) // 2)
+    while chunk >= 1 and budget > 0 and stream:
+        i, progress = 0, False
+        while i < len(stream) and budget > 0:
+            cand = stream[:i] + stream[i + chunk:]
+            budget -= 1
+            if single_differs(ctx, cur, cand):
+                stream, progress = cand, True
+            else:
+                i += chunk
+        if chunk == 1 and not progress:
             break
+        chunk = chunk // 2 if chunk > 1 else (1 if progress else 0)
     return cur, stream
 
 
 # ------------------------------------------------------------------------------------------------ leg (a)+(b): statement nests
 
-def nest_batch(ctx, corr, tag, nf, mode, maxdepth, fixed=None):
-    """one translation unit of nf generated functions through all comparisons.  Returns False when something was reported."""
+def nest_batch(ctx, corr, tag, nf, mode, maxdepth, fixed=None, search=False):
+    """one translation unit of nf generated functions through all comparisons.  Returns False when something was reported.
+    `search`: the tie is already known to be broken - only the implementation is compared with the reference compilers
+    (every function of the unit), the model legs are skipped."""
     rng = ctx.rng
     trees, streams, gens = [], [], []
     if fixed:
@@ -753,9 +778,20 @@ def nest_batch(ctx, corr, tag, nf, mode, maxdepth, fixed=None):
         if any('gcc' in k for k in kinds):
             corr.disagreements.append({'kind': 'generator produced a program gcc rejects', 'errors': b.errors, 'source': src[:3000]})
         else:
-            corr.violations.append({'what': 'chibicc fails on a valid program (' + kinds[0] + ')', 'errors': b.errors,
-                                    'input': src[:6000], 'expected': 'compiles and runs', 'got': b.errors[0][1]})
+            # which function?  compile each alone, then minimise the first one chibicc refuses
+            small = None
+            for i, t in enumerate(trees):
+                if not cc_accepts(ctx, unit_source([to_c(t, 0, style)])):
+                    small, sstream = shrink(ctx, t, streams[i])
+                    break
+            v = {'what': 'chibicc fails on a valid program (' + kinds[0] + ')', 'errors': b.errors,
+                 'input': src[:6000], 'expected': 'compiles and runs', 'got': b.errors[0][1]}
+            if small is not None:
+                v.update({'input': unit_source([to_c(small, 0)]), 'sexpr': sx(small), 'oracle_values': sstream, 'unit': src[:6000]})
+            corr.violations.append(v)
         return False
+    if search:
+        return nest_search(ctx, corr, trees, streams, b, style)
     # (a) text tie
     try:
         sk = skeletons(b.asm)
@@ -885,6 +921,31 @@ def nest_batch(ctx, corr, tag, nf, mode, maxdepth, fixed=None):
     return ok
 
 
+def nest_search(ctx, corr, trees, streams, b, style):
+    """search mode of nest_batch: chibicc build vs gcc (clang arbitrates) on every function; the first difference is shrunk
+    and reported"""
+    for i, t in enumerate(trees):
+        corr.evaluations += 1
+        cc = (b.cc_runs or {}).get(i)
+        gc = (b.gcc_runs or {}).get(i)
+        if cc == gc and cc is not None and cc[1] != 'CRASH':
+            continue
+        verdict, info = arbitrate(ctx, to_c(t, 0, style), streams[i])
+        if verdict != 'violation':
+            continue
+        small, sstream = shrink(ctx, t, streams[i])
+        v2, i2 = arbitrate(ctx, to_c(small, 0), sstream)
+        ref = i2['refs'].get('gcc') or i2['refs'].get('clang')
+        j, x, y = first_diff((i2['chibicc'] or ([], ''))[0], (ref or ([], ''))[0])
+        corr.violations.append({'what': 'compiled code executes a different statement sequence than the abstract machine '
+                                        '(gcc and clang twins agree with each other)',
+                                'input': unit_source([to_c(small, 0)]), 'oracle_values': sstream, 'sexpr': sx(small),
+                                'expected': ref, 'got': i2['chibicc'], 'references': i2['refs'], 'errors': i2['errors'],
+                                'first_difference': [j, y, x], 'original': to_c(t, 0, style)})
+        return False
+    return True
+
+
 # ------------------------------------------------------------------------------------------------ jump battery
 
 def nested_case(t, in_item=False, top=False):
@@ -988,7 +1049,7 @@ def jump_function(rng):
         vals.append(0 if x < 0.3 else 1 if x < 0.6 else rng.randint(0, 13))
     return tree, vals
 
-def jump_battery(ctx, corr):
+def jump_battery(ctx, corr, search=False):
     nb = 1 if not ctx.thorough else 12
     for bi in range(nb):
         fixed = []
@@ -999,18 +1060,50 @@ def jump_battery(ctx, corr):
                 continue
             fixed.append((t, vs))
             corr.count('jump-battery')
-        if not nest_batch(ctx, corr, f'jb{bi}', len(fixed), 'free', 6, fixed=fixed):
+        if not nest_batch(ctx, corr, f'jb{bi}', len(fixed), 'free', 6, fixed=fixed, search=search):
             return False
     return True
 
 
 # ------------------------------------------------------------------------------------------------ switch battery
 
-def switch_battery(ctx, corr):
+def adversarial_values(v, T):
+    """controlling values chosen against the case bound v of a switch on T: values that agree with v in some of their bits
+    only (congruent mod 2^32 / 2^31 / 2^33, top half flipped, v truncated to 8/16/32 bits and sign- or zero-extended).  A
+    ladder that compares at the wrong width, with the wrong signedness or through a truncated immediate takes the wrong arm
+    on one of them.  Returns C `long` values to be returned by in(): for 64-bit T the values of T's range; for `unsigned`
+    any pattern (the conversion long -> unsigned is modulo 2^32, 6.3.1.3p2, so the high half must be ignored); for `int` and
+    narrower types nothing (an out-of-range conversion to a signed type is implementation-defined, narrower types are cast
+    before promotion: the skeleton drops casts)."""
+    bits, signed = TYPES[T]
+    p = v & M64
+    out = set()
+    if bits == 64:
+        tl, th = trange(T)
+        cand = {v + d for d in (1 << 32, -(1 << 32), 1 << 31, -(1 << 31), 1 << 33, -(1 << 33), 1 << 63, -(1 << 63))}
+        for q in (p ^ (0xffffffff << 32), p ^ (1 << 63), p ^ (1 << 32), p ^ (1 << 31)):
+            cand.add(as_long(q) if signed else q)
+        for w in (8, 16, 32):
+            m = (1 << w) - 1
+            z = p & m
+            cand |= {z, z - (1 << w) if z >> (w - 1) else z, z | (1 << w), z + (1 << 32)}
+        for c in cand:
+            if tl <= c <= th:
+                out |= {as_long(c)}
+    elif T == 'unsigned':
+        lo32 = p & 0xffffffff
+        for hi32 in (1, 0xffffffff, 0x80000000, 0x7fffffff, 2):
+            out.add(as_long(lo32 | (hi32 << 32)))
+    return out
+
+
+def switch_battery(ctx, corr, full=False, search=False):
     """every controlling type x directed case sets (negative, > 32 bit, ranges at the ends of the type) x default in every
-    position x values on both sides of every boundary.  One function per (type, case set, default position); each function
-    loops over the oracle stream:  for (; c(1); ) switch ((T)in(2)) {...}"""
+    position x values on both sides of every boundary and values chosen against every bound (adversarial_values).  One
+    function per (type, case set, default position); each function loops over the oracle stream:
+    for (; c(1); ) switch ((T)in(2)) {...}"""
     rng = ctx.rng
+    full = full or ctx.thorough
     fns = []
     for T in TYPES:
         lo, hi = prange(T)
@@ -1034,7 +1127,8 @@ def switch_battery(ctx, corr):
             sets += [[(-(1 << 31), -(1 << 31) + 1), (-129, -127), (127, 129)]]
         else:
             sets += [[((1 << 31) - 1, (1 << 31) - 1), ((1 << 31), (1 << 31) + 2), (hi - 2, hi)]]
-        if not ctx.thorough:
+        sets.append([(1, 5), (7, 7), (100, 1000)])
+        if not full:
             sets = [s for s in sets if rng.random() < 0.55] or sets[:2]
         for cs in sets:
             cs = [(a, b) for a, b in cs if lo <= a <= b <= hi and as_long(a) <= as_long(b)]
@@ -1043,6 +1137,8 @@ def switch_battery(ctx, corr):
                 corr.count('skipped_latitude')
                 continue
             positions = range(-1, len(cs) + 1) if ctx.thorough else sorted({-1, rng.randrange(0, len(cs) + 1)})
+            if search:
+                positions = [rng.randrange(-1, len(cs) + 1)]
             for dpos in positions:
                 order = list(cs)
                 rng.shuffle(order)
@@ -1068,6 +1164,12 @@ def switch_battery(ctx, corr):
                 stream = []
                 for v in vals:
                     stream += [1, as_long(v)]
+                adv = set()
+                for a, b in cs:
+                    adv |= adversarial_values(a, T) | adversarial_values(b, T)
+                for v in sorted(adv):
+                    stream += [1, v]
+                    corr.count('switch-adversarial-values')
                 fns.append((tree, stream, T))
     nf = 48
     for start in range(0, len(fns), nf):
@@ -1078,7 +1180,10 @@ def switch_battery(ctx, corr):
         old = LIMIT
         LIMIT = 4000
         try:
-            if not nest_batch(ctx, corr, f'swb{start}', len(part), 'structured', 6, fixed=[(t, vs) for t, vs, _ in part]):
+            if not nest_batch(ctx, corr, f'swb{start}', len(part), 'structured', 6, fixed=[(t, vs) for t, vs, _ in part],
+                              search=search) and not search:
+                return False
+            if search and corr.violations:
                 return False
         finally:
             LIMIT = old
@@ -1466,20 +1571,22 @@ def correspond(ctx, corr):
 
 
 def search(ctx, broken, corr):
-    """a proof or the tie broke without a behavioural difference in the standard run: look harder, gcc as the oracle"""
+    """a proof or the tie broke without a behavioural difference in the standard run: look harder, gcc as the oracle.
+    Directed first (cheap, aimed at the decision logic of the anchors): the complete switch battery with controlling values
+    chosen against every case bound on every controlling type, then the jump idioms; then random nests."""
     c2 = Corr()
-    for bi in range(40):
-        mode = 'free' if bi % 2 else 'structured'
-        nest_batch(ctx, c2, f'srch{bi}', 24, mode, 6)
-        c2.disagreements = []
+    for rnd in range(3):
+        switch_battery(ctx, c2, full=True, search=True)
         if c2.violations:
             return c2.violations[0]
-    switch_battery(ctx, c2)
+    jump_battery(ctx, c2, search=True)
     if c2.violations:
         return c2.violations[0]
-    jump_battery(ctx, c2)
-    if c2.violations:
-        return c2.violations[0]
+    for bi in range(40):
+        mode = 'free' if bi % 2 else 'structured'
+        nest_batch(ctx, c2, f'srch{bi}', 24, mode, 6, search=True)
+        if c2.violations:
+            return c2.violations[0]
     scope_batch(ctx, c2, 150)
     if c2.violations:
         return c2.violations[0]
